@@ -240,6 +240,18 @@ func run(dec string, in []byte, class string) resp {
 			o = vh.ResErr(0)
 		}
 		out.Add(fmt.Sprintf("C %s %s %s %d", c, vh.Bytes(in), o, cls), dec+"/"+class, nontrivial, desc)
+	} else if dec == "recv" && r.Class != "hang" {
+		o := "Panic"
+		switch r.Class {
+		case "ok":
+			o = vh.ResOk(digestTerm(r.Digest))
+		case "err":
+			o = vh.ResErr(r.Code)
+		case "dead":
+			o = vh.ResErr(0)
+		}
+		a := devA()
+		out.Add(fmt.Sprintf("CRecv %s %s %s %d", vh.Bytes(a[:]), vh.Bytes(in), o, cls), dec+"/"+class, nontrivial, desc)
 	} else if strings.HasPrefix(dec, "b64:") && r.Class != "hang" {
 		o := "Panic"
 		switch r.Class {
